@@ -441,3 +441,85 @@ pub fn run_plain(seed: u64, mut ov: impl FnMut(&mut engine::Cfg)) -> ! {
     }
     engine::finish_ok()
 }
+
+// ------------------------------------------------------------------------------------------------
+// the wake protocol the timer thread builds on the head report: a consumer that found the list
+// empty goes idle and is woken by exactly the push that reports "head"; pushes that report "not
+// head" wake nobody. A head report lost for a push that did find the list empty strands the
+// entry (in may: that timeout and every later one of the same duration never fires)
+// ------------------------------------------------------------------------------------------------
+
+pub fn run_wake(seed: u64, mut ov: impl FnMut(&mut engine::Cfg)) -> ! {
+    use std::sync::atomic::{AtomicBool, AtomicU32, Ordering};
+    let mut r = gen_rng(seed);
+    let np = r.range(1, 3) as usize;
+    let counts: Vec<usize> = (0..np).map(|_| r.range(1, 5) as usize).collect();
+    let gaps: Vec<u32> = (0..np).map(|_| r.below(12) as u32).collect();
+    let total: usize = counts.iter().sum();
+    let mut cfg = swarm_cfg(seed, &swarm());
+    ov(&mut cfg);
+    engine::init(cfg);
+    engine::set_extra("params", engine::json_str(&format!("wake protocol: counts {:?} gaps {:?}", counts, gaps)));
+    let q: Arc<Queue<Tok>> = Arc::new(Queue::new());
+    let token = Arc::new(AtomicBool::new(false));
+    let consumed = Arc::new(AtomicU32::new(0));
+    let mut actors = Vec::new();
+    for (pi, &n) in counts.iter().enumerate() {
+        let (q, token, gap) = (q.clone(), token.clone(), gaps[pi]);
+        actors.push(engine::spawn(&format!("producer{}", pi), move || {
+            for k in 0..n {
+                for _ in 0..gap {
+                    engine::yield_point();
+                }
+                let (entry, is_head) = q.push(Tok::new((pi * 100 + k) as u32));
+                drop(entry);
+                if is_head {
+                    token.store(true, Ordering::Relaxed);
+                    engine::notify(&*token as *const _ as usize);
+                }
+            }
+        }));
+    }
+    let consumer = {
+        let (q, token, consumed) = (q.clone(), token.clone(), consumed.clone());
+        engine::spawn("consumer", move || {
+            let mut seen = std::collections::HashSet::new();
+            while (consumed.load(Ordering::Relaxed) as usize) < total {
+                // drain
+                while let Some(t) = q.pop() {
+                    if !seen.insert(t.id()) {
+                        violation(&format!("entry {} popped twice", t.id()));
+                    }
+                    consumed.fetch_add(1, Ordering::Relaxed);
+                }
+                if consumed.load(Ordering::Relaxed) as usize >= total {
+                    break;
+                }
+                // idle until a push reports that it found the list empty
+                loop {
+                    if token.swap(false, Ordering::Relaxed) {
+                        break;
+                    }
+                    if !engine::wait_key(&*token as *const _ as usize, Some(50_000_000)) {
+                        let left = total - consumed.load(Ordering::Relaxed) as usize;
+                        violation(&format!(
+                            "the consumer found the list empty and went idle; {} entr{} pushed afterwards but no push reported 'head', so nobody woke it (is_empty() now: {})",
+                            left,
+                            if left == 1 { "y was" } else { "ies were" },
+                            q.is_empty()
+                        ));
+                    }
+                }
+            }
+        })
+    };
+    engine::set_vt_limit(engine::now() + 1_000_000_000);
+    for a in actors {
+        engine::join(a);
+    }
+    engine::join(consumer);
+    if q.pop().is_some() {
+        violation("an entry is left in the list after all were consumed");
+    }
+    engine::finish_ok()
+}
